@@ -174,6 +174,56 @@ func genImportGraph(r *Rng, hist map[string]int) []impFile {
 		}
 		f.body = sb.String()
 	}
+	// clone files: identical content in several files (cross-file duplicate removal)
+	for i := 1; i < n; i++ {
+		if r.Chance(35) {
+			j := r.Intn(n)
+			if j != i && j != 0 {
+				files[i].body = files[j].body
+				files[i].pre = ""
+				files[i].imports = nil
+				files[j].imports = nil
+				hist["imp-clone-file"]++
+			}
+		}
+	}
+	// layer sandwich in the entry: X layer(L1), Y layer(L2), X-or-clone layer(L1) (also anonymous / conditional)
+	if n >= 3 && r.Chance(45) {
+		hist["imp-layer-sandwich"]++
+		l1 := []string{"layer(la)", "layer(lb)", "layer(la.lb)", "layer"}[r.Intn(4)]
+		l2 := []string{"layer(lb)", "layer(lc)", "layer(la)", "layer", ""}[r.Intn(5)]
+		a, b, c := r.Range(1, n-1), r.Range(1, n-1), r.Range(1, n-1)
+		// the sandwiched files disagree about one element
+		sel := []string{"a", "b", ".c1", "div", "span"}[r.Intn(5)]
+		if a != b {
+			files[a].body = sel + " { color: red }\n" + files[a].body
+			files[b].body = sel + " { color: green }\n" + files[b].body
+		}
+		if r.Chance(60) && c != b {
+			files[c].body = files[a].body
+			files[c].pre, files[c].imports, files[a].imports = "", nil, nil
+		}
+		cond := func(im impRef) impRef {
+			if r.Chance(25) {
+				im.supp = "display: grid"
+			}
+			if r.Chance(25) {
+				im.media = []string{"screen", "print"}[r.Intn(2)]
+			}
+			return im
+		}
+		files[0].imports = []impRef{cond(impRef{target: a, layer: l1}), cond(impRef{target: b, layer: l2}), cond(impRef{target: c, layer: l1})}
+		// break cycles through the entry
+		for i := 1; i < n; i++ {
+			var keep []impRef
+			for _, im := range files[i].imports {
+				if im.target != 0 {
+					keep = append(keep, im)
+				}
+			}
+			files[i].imports = keep
+		}
+	}
 	return files
 }
 
@@ -181,6 +231,13 @@ func glueBundle(r *Rng, n int, st *Stats) {
 	hist := map[string]int{}
 	for i := 0; i < n; i++ {
 		files := genImportGraph(r, hist)
+		if i == 1 {
+			// fixed corpus (must pass): cross-file duplicate removal must keep the first "@layer a{}" wrapper
+			files = []impFile{
+				{imports: []impRef{{target: 1, layer: "layer(la)"}, {target: 2, layer: "layer(lb)"}, {target: 3, layer: "layer(la)"}}},
+				{body: "a { color: red }\n"}, {body: "a { color: green }\n"}, {body: "a { color: red }\n"},
+			}
+		}
 		if i == 0 {
 			// fixed corpus: the known finding C12-H (anonymous layer import split per file)
 			files = []impFile{
@@ -202,7 +259,7 @@ func glueBundle(r *Rng, n int, st *Stats) {
 				panic(err)
 			}
 		}
-		minify := r.Chance(60)
+		minify := r.Chance(60) || i == 1
 		build := func() (string, error) {
 			res := api.Build(api.BuildOptions{
 				AbsWorkingDir: dir,
@@ -238,6 +295,9 @@ func glueBundle(r *Rng, n int, st *Stats) {
 		inItems := flattenSheet(parseSheet(inlined))
 		outItems := flattenSheet(parseSheet(out))
 		d := genDOM(r)
+		if i < 2 {
+			d = boxDOM()
+		}
 		what, detail := compareCascade(d, inItems, outItems, nil, r, st)
 		if what != "" {
 			out2, err2 := build()
